@@ -1,9 +1,78 @@
 import TaurexModel.Proto
+import TaurexModel.Emission
 
 namespace Taurex.Ops.C02
-open Taurex.Proto
+open Taurex.Proto Taurex.Emission
 
-/-- operations of the C02 model served by `driver_c02` (filled in by the C02 check) -/
-def ops : List Op := []
+/-- `pi h c kb conv scale` -/
+def pcP : P (PC Float) := do
+  let pi ← flt
+  let h ← flt
+  let c ← flt
+  let kb ← flt
+  let conv ← flt
+  let scale ← flt
+  pure { pi := pi, h := h, c := c, kb := kb, conv := conv, scale := scale }
+
+def kindP : P Kind := do
+  let n ← nat
+  pure (if n == 0 then Kind.lin else Kind.sq)
+
+/-- wavenumbers, then per contribution `kind` and `sigma_xsec[layer][wn]`; returns the columns -/
+def colsP : P (List (Col Float)) := do
+  let nus ← listOf flt
+  let cs ← listOf (do
+    let kd ← kindP
+    let m ← listOf (listOf flt)
+    pure (kd, m))
+  pure ((List.range nus.length).map (fun j =>
+    { nu := nus.getD j 0, sig := cs.map (fun c => (c.1, c.2.map (fun row => row.getD j 0))) }))
+
+/-- `c02.planck consts nus T` → `black_body(nus, T)` -/
+def planckOp (args : List String) : Option String :=
+  run (do
+    let k ← pcP
+    let nus ← listOf flt
+    let t ← flt
+    pure (fList fF (nus.map (fun nu => planck k nu t)))) args
+
+/-- `c02.quad xs wts` → `_mu_quads`, `_wi_quads`, `1/_mu_quads` -/
+def quadOp (args : List String) : Option String :=
+  run (do
+    let xs ← listOf flt
+    let wts ← listOf flt
+    pure (fList fF (xs.map muOf) ++ " " ++ fList fF (wts.map wOf) ++ " " ++ fList fF (xs.map muInvOf))) args
+
+/-- `c02.emission consts npPi cols dz dens temps xs wts tstar rp rs dist pc` →
+    per column: intensities per angle, surface tau, flux, eclipse ratio, direct-image flux, uncut flux;
+    then per layer the two clamp decisions -/
+def emissionOp (args : List String) : Option String :=
+  run (do
+    let k ← pcP
+    let npPi ← flt
+    let cols ← colsP
+    let dz ← listOf flt
+    let dens ← listOf flt
+    let temps ← listOf flt
+    let xs ← listOf flt
+    let wts ← listOf flt
+    let tstar ← flt
+    let rp ← flt
+    let rs ← flt
+    let dist ← flt
+    let pc ← flt
+    let fl := flagsOf cols dz dens temps.length
+    let muInvs := xs.map muInvOf
+    let perCol := cols.map (fun col =>
+      let is := colIntensities k fl dz dens temps muInvs col
+      let f := fluxOf npPi is xs wts
+      let iu := colIntensities k [] dz dens temps muInvs col
+      let fu := fluxOf npPi iu xs wts
+      fList fF is ++ " " ++ fF (surfTau dz dens temps col) ++ " " ++ fF f ++ " "
+        ++ fF (eclipse f (planck k col.nu tstar) rp rs) ++ " " ++ fF (direct k.pi f rp dist pc) ++ " " ++ fF fu)
+    pure (fList id perCol ++ " " ++ fList (fun b => fB b.1 ++ " " ++ fB b.2) fl)) args
+
+def ops : List Op :=
+  [("c02.planck", planckOp), ("c02.quad", quadOp), ("c02.emission", emissionOp)]
 
 end Taurex.Ops.C02
